@@ -120,7 +120,7 @@ func labelFeats(v *h.Verdict, c Case, e *refEnc) {
 	} else {
 		v.Label("type:" + c.Type.Name())
 	}
-	for _, f := range []string{"negative-int", "bitstring%8==0", "len>=128", "len>=65536", "tag>=31", "all-optional-absent", "choice-under-tag", "explicit-tag"} {
+	for _, f := range []string{"negative-int", "bitstring%8==0", "len>=128", "len>=65536", "tag>=31", "all-optional-absent", "choice-under-tag", "explicit-tag", "untagged-member", "untagged-alternative"} {
 		if e.feats[f] {
 			v.NT(f)
 		}
